@@ -702,11 +702,9 @@ def parse_model(model: str, *, check_syntax: bool = True) -> List[Symbol]:
                 with warnings.catch_warnings(record=True) as w:
                     warnings.simplefilter('always')
 
-                    # Check for exceptions when trying to run the current equation
+                    # Check the syntax of the current equation without running it
                     try:
-                        exec(e)
-                    except NameError:  # Ignore name errors (undefined variables)
-                        pass
+                        compile(e, '<string>', 'exec')
                     except SyntaxError:
                         problem_statements.append((i, statement, e))
                         break
